@@ -332,3 +332,19 @@ Check overlapping_groups_order_dependent :
     /\ lookup a (gl_peers g1) = Some p1 /\ lookup a (gl_peers g2) = Some p2
     /\ pe_hold p1 = 30 /\ pe_hold p2 = 90.
 Print Assumptions overlapping_groups_order_dependent.
+
+(* (20) Record of finding C16-5 (repaired): without the identity check at the end of PeerSession::run, the task of a deleted neighbour removes the dynamic neighbour admitted at the same address in the meantime, although that neighbour's connection is alive. *)
+Theorem stale_task_removes_live_dynamic_peer_refuted :
+  exists (g g' : global) (a : ipaddr) (s : session) (p : peer),
+    fst (step_op g (ODeleteReconnect a RPassive)) = g'
+    /\ snd (step_op g (ODeleteReconnect a RPassive)) = Some (Some s)
+    /\ lookup a (gl_peers g') = Some p /\ pe_conn_passive p = true
+    /\ lookup a (gl_peers (stale_task_end_unchecked g' a)) = None.
+Proof. exact C16_stale_task_removes_live_dynamic_peer_refuted. Qed.
+Check stale_task_removes_live_dynamic_peer_refuted :
+  exists (g g' : global) (a : ipaddr) (s : session) (p : peer),
+    fst (step_op g (ODeleteReconnect a RPassive)) = g'
+    /\ snd (step_op g (ODeleteReconnect a RPassive)) = Some (Some s)
+    /\ lookup a (gl_peers g') = Some p /\ pe_conn_passive p = true
+    /\ lookup a (gl_peers (stale_task_end_unchecked g' a)) = None.
+Print Assumptions stale_task_removes_live_dynamic_peer_refuted.
